@@ -285,6 +285,28 @@ def replay(iset, memarch, nregions, inputs, ob):
         keep = {k: (_h(init[k]), _h(final[k])) for k in final if k.startswith('R.') and final[k] != init[k] and k not in ('R.PC', 'R.LRabt', 'R.LRmon', 'R.LRusr')}
         lines.append('registers changed although the access aborted: %s' % keep)
         bad = bool(keep) or bool(sc.writes and not type(eo).__name__.startswith('Strd'))
+    elif kind in ('decode.fields', 'decode.exec'):
+        from spec import encodings as ENC
+        from spec.cpu import Cpu
+        kname = type(eo).__name__
+        want = 'arm' if iset == 'arm' else ('t16' if iset == 'thumb16' else 't32')
+        instr = inputs['instr']
+        for r in [r for r in ENC.rows_for(kname) if r.iset == want and r.match(instr) and r.opfields is not None]:
+            f = r.extract(instr)
+            st0 = dict(init)
+            cfgs = registry.mods().configurations.configurations.configs
+            for k in MC.CFG_BOOL + list(MC.CFG_INT):
+                st0['cfg.' + k] = cfgs.get(k)
+            base = Cpu(st0, 'arm' if iset == 'arm' else 'thumb', instr, 16 if iset == 'thumb16' else 32)
+            unp = bool(r.sbz_violated(instr)) or (bool(r.unpred(f, base)) if r.unpred is not None else False)
+            exp = r.opfields(f)
+            got = {k: getattr(eo, k, None) for k in exp}
+            lines.append('decoded fields %s ; architectural fields %s%s' % (got, exp, ' (UNPREDICTABLE encoding)' if unp else ''))
+            if kind == 'decode.fields':
+                bad = bad or (not unp and any((bool(got[k]) != bool(exp[k])) if isinstance(exp[k], bool) else (got[k] != exp[k]) for k in exp))
+            else:
+                from props import c03
+                bad = bad or type(eo).execute is not c03.klass(r.exec_class).execute
     elif kind in ('decode.class', 'post', 'post.unpred'):
         from spec import encodings as ENC
         from spec import stepspec as SS
